@@ -140,6 +140,9 @@ func genMetric(r *vgen.Rand, i int, zeroThr bool) (metricdata.Metrics, bool) {
 	m := metricdata.Metrics{Name: fmt.Sprintf("%s.%d", vgen.Pick(r, []string{"http.server.duration", "queue.len", "", "Größe"}), i),
 		Description: vgen.Pick(r, []string{"", "a description", "ü"}), Unit: vgen.Pick(r, []string{"", "ms", "By", "{request}", "1"})}
 	usedZT := false
+	if r.Chance(1, 30) {
+		return m, false // no Aggregation at all: dropped with errUnknownAggregation, the others still arrive
+	}
 	switch r.Intn(9) {
 	case 0:
 		m.Data = metricdata.Gauge[int64]{DataPoints: genDPs(r, genI)}
@@ -190,6 +193,9 @@ func genMetricBatch(r *vgen.Rand) metricBatch {
 	var b metricBatch
 	res, _ := genResources(r, false)
 	b.rm.Resource = res[0]
+	if r.Chance(1, 15) {
+		b.rm.Resource = nil // ResourceMetrics without a resource: reads as the empty one
+	}
 	allowZT := r.Chance(1, 6)
 	scopes := genScopes(r)
 	ns := r.Range(0, len(scopes))
@@ -272,6 +278,8 @@ func mdataCoq(a metricdata.Aggregation) string {
 			return vgen.App("mkQp", kvsCoq(q.Attributes.ToSlice()), zt(q.StartTime), zt(q.Time), vgen.N(q.Count), fb(q.Sum),
 				lst(q.QuantileValues, func(v metricdata.QuantileValue) string { return vgen.Pair(fb(v.Quantile), fb(v.Value)) }))
 		}))
+	case nil:
+		return "MNone"
 	}
 	panic("harness: unknown aggregation")
 }
@@ -379,9 +387,26 @@ func runMetrics(ctx context.Context, w *vgen.Writer, r *vgen.Rand, o vgen.Opts, 
 		w.Violation("cannot build the otlpmetricgrpc exporter: "+err.Error(), nil)
 		return
 	}
-	defer func() { _ = he.Shutdown(ctx); _ = ge.Shutdown(ctx) }()
+	hz, err := otlpmetrichttp.New(ctx, otlpmetrichttp.WithEndpointURL("http://"+hc.addr()+"/v1/metrics"), otlpmetrichttp.WithCompression(otlpmetrichttp.GzipCompression),
+		otlpmetrichttp.WithRetry(otlpmetrichttp.RetryConfig{Enabled: false}), otlpmetrichttp.WithTimeout(20*time.Second))
+	if err != nil {
+		w.Violation("cannot build the otlpmetrichttp exporter (gzip, endpoint URL): "+err.Error(), nil)
+		return
+	}
+	gz, err := otlpmetricgrpc.New(ctx, otlpmetricgrpc.WithEndpointURL("http://"+gc.addr()), otlpmetricgrpc.WithCompressor("gzip"),
+		otlpmetricgrpc.WithRetry(otlpmetricgrpc.RetryConfig{Enabled: false}), otlpmetricgrpc.WithTimeout(20*time.Second))
+	if err != nil {
+		w.Violation("cannot build the otlpmetricgrpc exporter (gzip, endpoint URL): "+err.Error(), nil)
+		return
+	}
+	defer func() { _ = he.Shutdown(ctx); _ = ge.Shutdown(ctx); _ = hz.Shutdown(ctx); _ = gz.Shutdown(ctx) }()
 
-	one := func(b metricBatch, kind string) {
+	one := func(b metricBatch, kind string, zip bool) {
+		he, ge := he, ge
+		if zip {
+			he, ge = hz, gz
+			w.Tally("metrics:route:gzip+endpoint-url")
+		}
 		desc := map[string]any{"signal": "metrics", "scopes": len(b.rm.ScopeMetrics), "metrics": b.metrics, "kinds": b.kinds, "zero_threshold": b.zeroThr}
 		errH := exportTo(&hc.sink, func() error { return he.Export(ctx, &b.rm) })
 		errG := exportTo(&gc.sink, func() error { return ge.Export(ctx, &b.rm) })
@@ -410,12 +435,12 @@ func runMetrics(ctx context.Context, w *vgen.Writer, r *vgen.Rand, o vgen.Opts, 
 	}
 
 	for i, b := range metricCorpus() {
-		guard(map[string]any{"signal": "metrics", "corpus": i}, func() { one(b, "metrics-corpus") })
+		guard(map[string]any{"signal": "metrics", "corpus": i}, func() { one(b, "metrics-corpus", i%2 == 1) })
 	}
 	n := o.Count(200, 5000)
 	for i := 0; i < n; i++ {
 		b := genMetricBatch(r)
-		guard(map[string]any{"signal": "metrics", "batch": i}, func() { one(b, "metrics") })
+		guard(map[string]any{"signal": "metrics", "batch": i}, func() { one(b, "metrics", i%3 == 2) })
 	}
 }
 
@@ -448,6 +473,11 @@ func metricCorpus() []metricBatch {
 		PositiveBucket: metricdata.ExponentialBucket{Offset: -2, Counts: []uint64{1, 0, 2}}, NegativeBucket: metricdata.ExponentialBucket{Offset: 4, Counts: []uint64{1}}}}}})
 	zb.zeroThr = true
 	out = append(out, zb)
+	// no aggregation / no resource / no scopes: exporter-level paths
+	nb := mk(metricdata.Metrics{Name: "nodata"}, metricdata.Metrics{Name: "g", Data: metricdata.Gauge[int64]{DataPoints: []metricdata.DataPoint[int64]{{Attributes: set, Time: t1, Value: 3}}}})
+	nb.rm.Resource = nil
+	out = append(out, nb)
+	out = append(out, metricBatch{rm: metricdata.ResourceMetrics{Resource: res}})
 	// unknown temporality: the metric is dropped, the others arrive
 	out = append(out, mk(
 		metricdata.Metrics{Name: "bad", Data: metricdata.Sum[int64]{DataPoints: []metricdata.DataPoint[int64]{{Value: 1}}}},
